@@ -62,6 +62,9 @@ type c16Node struct {
 	// comp / graph: the node is added with WithInputKey / WithOutputKey (c16_keys.go)
 	InKey  string `json:"inKey,omitempty"`
 	OutKey string `json:"outKey,omitempty"`
+	// lambda: it can interrupt (returns compose.InterruptAndRerun when the call asks it to) and takes
+	// a string, so that it can be run again from a checkpoint with the zero input (c16_resume.go)
+	Intr bool `json:"intr,omitempty"`
 }
 
 type c16Opt struct {
@@ -80,6 +83,11 @@ type c16Call struct {
 	Ixs      []int     `json:"ixs"`
 	Paradigm string    `json:"paradigm,omitempty"` // invoke | stream | collect | transform
 	Dag      bool      `json:"dag,omitempty"`
+	// Ask: "" an ordinary call | "interrupt": the call carries a new checkpoint id and the lambda at
+	// path At interrupts on its execution | "resume": the call carries the checkpoint id of the last
+	// "interrupt" call before it (c16_resume.go)
+	Ask string   `json:"ask,omitempty"`
+	At  []string `json:"at,omitempty"`
 }
 
 // c16BuildOp is one step of constructing Option values: a fresh base, or an Option derived
@@ -198,6 +206,8 @@ type c16Rec struct {
 	mu   sync.Mutex
 	vals map[string][][]int // node path -> option ids per execution
 	hs   map[string][]int   // node name (= path) -> handler ids whose OnStart fired
+	// the lambda with this path name interrupts (InterruptAndRerun) after it has recorded its options
+	interruptAt string
 }
 
 func c16NewRec() *c16Rec { return &c16Rec{vals: map[string][][]int{}, hs: map[string][]int{}} }
@@ -236,81 +246,98 @@ const (
 
 func c16Output(s c16Spec) any { return c16Value(s) }
 
-func c16Lambda(ty int, path string, out c16Spec) *compose.Lambda {
+// c16LamOpt: an instrumented lambda with input type I and option type T.
+func c16LamOpt[I any, T any](path string, out c16Spec, ids func([]T) []int) *compose.Lambda {
+	return compose.InvokableLambdaWithOption(func(ctx context.Context, in I, opts ...T) (any, error) {
+		c16RecOf(ctx).addVals(path, ids(opts))
+		return c16Finish(ctx, path, out)
+	})
+}
+
+// c16LamPick: input type `any`, or `string` for a lambda that can interrupt (a node that is run
+// again from a checkpoint gets the zero value of its input type; nil does not pass for `any`).
+func c16LamPick[T any](strIn bool, path string, out c16Spec, ids func([]T) []int) *compose.Lambda {
+	if strIn {
+		return c16LamOpt[string, T](path, out, ids)
+	}
+	return c16LamOpt[any, T](path, out, ids)
+}
+
+// c16Finish: what an instrumented lambda returns: the value its successor needs, or – when the
+// call asks this node to – InterruptAndRerun.
+func c16Finish(ctx context.Context, path string, out c16Spec) (any, error) {
+	if r := c16RecOf(ctx); r != nil && r.interruptAt != "" && r.interruptAt == path {
+		return nil, compose.InterruptAndRerun
+	}
+	return c16Output(out), nil
+}
+
+func c16Lambda(ty int, path string, out c16Spec, strIn bool) *compose.Lambda {
 	switch ty {
 	case c16TyA:
-		return compose.InvokableLambdaWithOption(func(ctx context.Context, in any, opts ...c16OptA) (any, error) {
+		return c16LamPick(strIn, path, out, func(opts []c16OptA) []int {
 			ids := make([]int, 0, len(opts))
 			for _, o := range opts {
 				ids = append(ids, o.ID)
 			}
-			c16RecOf(ctx).addVals(path, ids)
-			return c16Output(out), nil
+			return ids
 		})
 	case c16TyB:
-		return compose.InvokableLambdaWithOption(func(ctx context.Context, in any, opts ...c16OptB) (any, error) {
+		return c16LamPick(strIn, path, out, func(opts []c16OptB) []int {
 			ids := make([]int, 0, len(opts))
 			for _, o := range opts {
 				ids = append(ids, o.ID)
 			}
-			c16RecOf(ctx).addVals(path, ids)
-			return c16Output(out), nil
+			return ids
 		})
 	case c16TyC:
-		return compose.InvokableLambdaWithOption(func(ctx context.Context, in any, opts ...c16OptC) (any, error) {
+		return c16LamPick(strIn, path, out, func(opts []c16OptC) []int {
 			ids := make([]int, 0, len(opts))
 			for _, o := range opts {
 				o(&ids)
 			}
-			c16RecOf(ctx).addVals(path, ids)
-			return c16Output(out), nil
+			return ids
 		})
 	case c16TyD:
-		return compose.InvokableLambdaWithOption(func(ctx context.Context, in any, opts ...c16OptD) (any, error) {
+		return c16LamPick(strIn, path, out, func(opts []c16OptD) []int {
 			ids := make([]int, 0, len(opts))
 			for _, o := range opts {
 				ids = append(ids, o.ID)
 			}
-			c16RecOf(ctx).addVals(path, ids)
-			return c16Output(out), nil
+			return ids
 		})
 	case c16TyAny:
-		return compose.InvokableLambdaWithOption(func(ctx context.Context, in any, opts ...any) (any, error) {
-			c16RecOf(ctx).addVals(path, c16AnyIDs(opts))
-			return c16Output(out), nil
-		})
+		return c16LamPick(strIn, path, out, c16AnyIDs)
 	case c16TyI:
-		return compose.InvokableLambdaWithOption(func(ctx context.Context, in any, opts ...c16OptI) (any, error) {
+		return c16LamPick(strIn, path, out, func(opts []c16OptI) []int {
 			ids := make([]int, 0, len(opts))
 			for _, o := range opts {
 				ids = append(ids, o.OptID())
 			}
-			c16RecOf(ctx).addVals(path, ids)
-			return c16Output(out), nil
+			return ids
 		})
 	case c16TyE:
-		return compose.InvokableLambdaWithOption(func(ctx context.Context, in any, opts ...c16OptE) (any, error) {
+		return c16LamPick(strIn, path, out, func(opts []c16OptE) []int {
 			ids := make([]int, 0, len(opts))
 			for _, o := range opts {
 				ids = append(ids, o.ID)
 			}
-			c16RecOf(ctx).addVals(path, ids)
-			return c16Output(out), nil
+			return ids
 		})
 	case c16TyM:
-		return compose.InvokableLambdaWithOption(func(ctx context.Context, in any, opts ...model.Option) (any, error) {
-			c16RecOf(ctx).addVals(path, c16ModelIDs(opts))
-			return c16Output(out), nil
-		})
+		return c16LamPick(strIn, path, out, c16ModelIDs)
 	case c16TyR:
-		return compose.InvokableLambdaWithOption(func(ctx context.Context, in any, opts ...retriever.Option) (any, error) {
-			c16RecOf(ctx).addVals(path, c16RetrIDs(opts))
-			return c16Output(out), nil
+		return c16LamPick(strIn, path, out, c16RetrIDs)
+	}
+	if strIn {
+		return compose.InvokableLambda(func(ctx context.Context, in string) (any, error) {
+			c16RecOf(ctx).addVals(path, nil)
+			return c16Finish(ctx, path, out)
 		})
 	}
 	return compose.InvokableLambda(func(ctx context.Context, in any) (any, error) {
 		c16RecOf(ctx).addVals(path, nil)
-		return c16Output(out), nil
+		return c16Finish(ctx, path, out)
 	})
 }
 
@@ -424,7 +451,7 @@ func c16BuildGraph(nodes []c16Node, pre []string, after c16Spec) (*compose.Graph
 			case "retriever":
 				err = g.AddRetrieverNode(n.Key, &c16Retriever{path: name}, nodeOpts...)
 			default:
-				err = g.AddLambdaNode(n.Key, c16Lambda(n.Ty, name, outs[i]), nodeOpts...)
+				err = g.AddLambdaNode(n.Key, c16Lambda(n.Ty, name, outs[i], n.Intr), nodeOpts...)
 			}
 		}
 		if err != nil {
@@ -447,6 +474,9 @@ func c16Compile(call *c16Call) (compose.Runnable[any, any], error) {
 		return nil, err
 	}
 	opts := []compose.GraphCompileOption{compose.WithGraphName(c16TopName)}
+	if call.Ask != "" {
+		opts = append(opts, compose.WithCheckPointStore(c16NewCPStore()))
+	}
 	if call.Dag {
 		opts = append(opts, compose.WithNodeTriggerMode(compose.AllPredecessor))
 	}
@@ -626,8 +656,16 @@ func c16ModelPaths(nodes []c16Node, pre []string, out *[]c16Entry) {
 	}
 }
 
-func c16CallOnce(r compose.Runnable[any, any], call *c16Call, opts []compose.Option) c16Result {
+// c16CallOnce runs one call.  cpID: the checkpoint id an "interrupt" / "resume" call carries;
+// want: the nodes expected to execute (nil = all nodes of the tree: a call from START to END).
+func c16CallOnce(r compose.Runnable[any, any], call *c16Call, opts []compose.Option, cpID string, want []c16Entry) c16Result {
 	rec := c16NewRec()
+	if call.Ask == "interrupt" {
+		rec.interruptAt = strings.Join(call.At, "/")
+	}
+	if call.Ask != "" {
+		opts = append(append([]compose.Option{}, opts...), compose.WithCheckPointID(cpID))
+	}
 	ctx := context.WithValue(context.Background(), c16RecKey{}, rec)
 	var runErr error
 	finished := false
@@ -671,10 +709,18 @@ func c16CallOnce(r compose.Runnable[any, any], call *c16Call, opts []compose.Opt
 	if !finished {
 		return c16Result{Note: "hang", Entries: []c16Entry{}}
 	}
+	interrupted := false
 	if runErr != nil {
-		return c16Result{Err: c16Classify(runErr), Entries: []c16Entry{}, Note: runErr.Error()}
+		if _, isInt := compose.ExtractInterruptInfo(runErr); isInt && call.Ask == "interrupt" {
+			interrupted = true // the call ended as asked: compare what the nodes that ran received
+		} else {
+			return c16Result{Err: c16Classify(runErr), Entries: []c16Entry{}, Note: runErr.Error()}
+		}
 	}
 	res := c16Result{Entries: []c16Entry{}}
+	if call.Ask == "interrupt" && !interrupted {
+		res.Note += "no-interrupt:the call ran to END although " + strings.Join(call.At, "/") + " was asked to interrupt;"
+	}
 	rec.mu.Lock()
 	defer rec.mu.Unlock()
 	used := map[string]bool{}
@@ -682,8 +728,9 @@ func c16CallOnce(r compose.Runnable[any, any], call *c16Call, opts []compose.Opt
 	used[c16TopName] = true
 	sort.Ints(top.Hs)
 	res.Entries = append(res.Entries, top)
-	var want []c16Entry
-	c16ModelPaths(call.G, nil, &want)
+	if want == nil {
+		c16ModelPaths(call.G, nil, &want)
+	}
 	for _, w := range want {
 		name := strings.Join(w.Path, "/")
 		e := c16Entry{Path: w.Path, G: w.G, Vals: []int{}, Hs: append([]int{}, rec.hs[name]...)}
@@ -727,7 +774,7 @@ func c16Snapshot(opts []compose.Option) []c16Opt {
 // c16RunImpl builds the shared Option values once, runs the calls (in sequence, or all at
 // once from goroutines released by one barrier) and reports per call what was observed, plus
 // the Option values as the caller sees them afterwards.
-func c16RunImpl(c *c16Case) (results []c16Result, built []c16Opt, storeChanged string, buildErr string, arrays [][]int) {
+func c16RunImpl(c *c16Case, model *c16Out) (results []c16Result, built []c16Opt, storeChanged string, buildErr string, arrays [][]int) {
 	var store []compose.Option
 	var backing [][]any
 	if len(c.Build) > 0 {
@@ -747,7 +794,8 @@ func c16RunImpl(c *c16Case) (results []c16Result, built []c16Opt, storeChanged s
 		k, _ := json.Marshal(struct {
 			G   []c16Node
 			Dag bool
-		}{c.Calls[i].G, c.Calls[i].Dag})
+			CP  bool
+		}{c.Calls[i].G, c.Calls[i].Dag, c.Calls[i].Ask != ""})
 		if r, ok := cache[string(k)]; ok {
 			runs[i] = r
 			continue
@@ -789,7 +837,7 @@ func c16RunImpl(c *c16Case) (results []c16Result, built []c16Opt, storeChanged s
 				defer wg.Done()
 				<-start
 				for k := 0; k < reps; k++ {
-					all[i][k] = c16CallOnce(runs[i], &c.Calls[i], pickOpts(&c.Calls[i]))
+					all[i][k] = c16CallOnce(runs[i], &c.Calls[i], pickOpts(&c.Calls[i]), "", nil)
 				}
 			}()
 		}
@@ -805,7 +853,7 @@ func c16RunImpl(c *c16Case) (results []c16Result, built []c16Opt, storeChanged s
 		}
 	} else {
 		for i := range c.Calls {
-			results[i] = c16CallOnce(runs[i], &c.Calls[i], pickOpts(&c.Calls[i]))
+			results[i] = c16CallOnce(runs[i], &c.Calls[i], pickOpts(&c.Calls[i]), c16CPID(c, i), c16Want(c, model, i))
 		}
 	}
 	after := c16Snapshot(store)
@@ -979,15 +1027,15 @@ func c16Eval(ctx *vh.Ctx, c *c16Case) (agree bool, model *c16Out, err error) {
 	if err != nil {
 		return false, nil, err
 	}
-	impl, built, storeChanged, buildErr, arrays := c16RunImpl(c)
+	if len(model.Results) != len(c.Calls) {
+		return false, model, fmt.Errorf("oracle returned %d results for %d calls", len(model.Results), len(c.Calls))
+	}
+	impl, built, storeChanged, buildErr, arrays := c16RunImpl(c, model)
 	if buildErr != "" {
 		ctx.Res.Disagree(vh.Disagreement{Signature: "C16:build:" + strings.SplitN(buildErr, ":", 2)[0], What: "the generated graph did not compile: " + buildErr, Case: c})
 		return false, model, nil
 	}
 	agree = true
-	if len(model.Results) != len(c.Calls) {
-		return false, model, fmt.Errorf("oracle returned %d results for %d calls", len(model.Results), len(c.Calls))
-	}
 	for i := range c.Calls {
 		if !c16Compare(ctx, c, i, model.Results[i], impl[i]) {
 			agree = false
@@ -1181,6 +1229,9 @@ func c16ShapeKey(c *c16Case, model *c16Out) string {
 		if p := c.Calls[i].Paradigm; p != "" && p != "invoke" {
 			sb.WriteString(p[:1])
 		}
+		if a := c.Calls[i].Ask; a != "" {
+			fmt.Fprintf(&sb, "!%s@%s", a[:1], strings.Join(c.Calls[i].At, "/"))
+		}
 	}
 	for i := range c.Build {
 		fmt.Fprintf(&sb, "<%s%d>", c.Build[i].Op[:1], c.Build[i].Src)
@@ -1234,6 +1285,7 @@ func c16One(ctx *vh.Ctx, c *c16Case, shrink bool) error {
 	}
 	c16Stats(ctx, c, agree)
 	c16SliceStats(ctx, c, model)
+	c16ResumeStats(ctx, c, model)
 	ctx.Res.Count(c16ShapeKey(c, model), nontrivial)
 	ctx.Res.Sample(c)
 	if agree {
@@ -1261,7 +1313,7 @@ func c16One(ctx *vh.Ctx, c *c16Case, shrink bool) error {
 }
 
 func runC16(ctx *vh.Ctx) error {
-	ctx.Res.Rule = "random chains of nested graphs (depth<=3; lambdas with 7 concrete option types incl. model.Option/retriever.Option, lambdas whose declared option type is an interface type (any, a small custom interface implemented by one of the concrete types), lambdas without option, fake ChatModel/Retriever components, passthrough nodes, reused keys across levels) x 0-5 Options (built in one step, or by sequences of DesignateNode/DesignateNodeWithPath calls deriving several Options from shared bases; undesignated / designated by DesignateNode or DesignateNodeWithPath with 1-3 paths; values or callbacks or empty; valid targets, wrong type, unknown node, path below component/passthrough, empty path) x nodes (lambdas, components, nested graphs) added with WithInputKey / WithOutputKey behind a predecessor that yields the map x Invoke/Stream/Collect/Transform x pregel/dag; single calls, sequences of calls and concurrent calls sharing the same Option values; value lists of lambda Options with spare capacity (WithLambdaOption keeps the caller's slice) and Options derived from one base sharing its array, several Options addressing the same nodes (stream shared/*), the caller's arrays inspected cell by cell after the calls; non-trivial = some node receives a value or a handler, or the call is rejected; distinct by (tree shape with types and keys, option kinds and paths, call index sets, paradigm)"
+	ctx.Res.Rule = "random chains of nested graphs (depth<=3; lambdas with 7 concrete option types incl. model.Option/retriever.Option, lambdas whose declared option type is an interface type (any, a small custom interface implemented by one of the concrete types), lambdas without option, fake ChatModel/Retriever components, passthrough nodes, reused keys across levels) x 0-5 Options (built in one step, or by sequences of DesignateNode/DesignateNodeWithPath calls deriving several Options from shared bases; undesignated / designated by DesignateNode or DesignateNodeWithPath with 1-3 paths; values or callbacks or empty; valid targets, wrong type, unknown node, path below component/passthrough, empty path) x nodes (lambdas, components, nested graphs) added with WithInputKey / WithOutputKey behind a predecessor that yields the map x Invoke/Stream/Collect/Transform x pregel/dag; single calls, sequences of calls and concurrent calls sharing the same Option values; value lists of lambda Options with spare capacity (WithLambdaOption keeps the caller's slice) and Options derived from one base sharing its array, several Options addressing the same nodes (stream shared/*), the caller's arrays inspected cell by cell after the calls; interrupt-then-resume call pairs (a lambda at any depth interrupts, the checkpoint is stored, the next call – its own options, any paradigm – resumes; stream resume/*); non-trivial = some node receives a value or a handler, or the call is rejected; distinct by (tree shape with types and keys, option kinds and paths, call index sets, paradigm)"
 	if err := c16CheckTypeMenu(); err != nil {
 		return err
 	}
@@ -1281,11 +1333,13 @@ func runC16(ctx *vh.Ctx) error {
 	for i := 0; i < n && ctx.TimeLeft(); i++ {
 		var c *c16Case
 		switch w := ctx.Rng.Intn(100); {
-		case w < 14:
+		case w < 12:
+			c = c16GenResume(ctx.Rng)
+		case w < 25:
 			c = c16GenShared(ctx.Rng)
-		case w < 32:
+		case w < 41:
 			c = c16GenIface(ctx.Rng)
-		case w < 52:
+		case w < 59:
 			c = c16Gen(ctx.Rng, true)
 		default:
 			c = c16Gen(ctx.Rng, false)
